@@ -12,11 +12,15 @@
      T3  fold_perm: a fold whose steps commute gives equivalent results on permuted lists; instances on the
          resolver model (Model/Schema.v): Entry.merge over a permuted Dir, the forallb/existsb checks of Process
          over a permuted module list, the initial forest F0 and pending table P0 of Process over a permuted schema.
+     T4  modules asked for by name and found through the search path (Model/File.v, dir/... entries included): the
+         file a name denotes is a function of the file tree, the path and the name; a sequence of requests gets
+         the same answers in every order.  The implementation is compared with [lookup_fs] on every run.
    What is NOT a theorem here (metamorphic testing of the implementation in check/props/c05.py): that the whole
    of Process -- augment loop (C07), identity lists (C11), deviations (C08), typedef dictionary -- and the CLI
    renderings are independent of load order and map iteration order. *)
 From Coq Require Import List NArith ZArith Bool Permutation Sorted.
-From GY Require Import Model.ErrorSort Model.Schema Spec.C05 Proofs.ErrorSortProofs.
+From GY Require Import Model.ErrorSort Model.Schema Spec.C05 Proofs.ErrorSortProofs Proofs.C05LookupProofs.
+From GY Require Base.Outcome Model.Registry Model.File.
 Import ListNotations.
 
 (* ------------------------------------------------------------------ T1 *)
@@ -146,7 +150,26 @@ Theorem C05_process_build_check_decides : forall SC ic ins order,
   Process SC ic ins order = RErr.
 Proof. exact Process_build_check. Qed.
 
+(* ------------------------------------------------------------------ T4 *)
+(* the answer to a request by name is that of [lookup_fs]: a function of tree, path and name *)
+Theorem C05_lookups_functional : forall root path names n o,
+  In (n, o) (lookups root path names) -> o = lookup_fs root path n.
+Proof. exact lookups_functional. Qed.
+
+(* the same requests in another order get the same answers *)
+Theorem C05_lookups_perm : forall root path names names', Permutation names names' ->
+  forall n o, In (n, o) (lookups root path names) <-> In (n, o) (lookups root path names').
+Proof. exact lookups_perm. Qed.
+
 (* ------------------------------------------------------------------ non-vacuity *)
+(* ROOT/a/c.yang, ROOT/b/c.yang, ROOT/b/d.yang, path ROOT/...: c is a/c.yang whether or not d (in b) was asked first *)
+Example C05_lookups_example :
+  lookups ex_root ex_path [[99%N]; [100%N]] =
+    [([99%N], Outcome.Ok (File.Found 1 [[97%N]; ex_yang 99])); ([100%N], Outcome.Ok (File.Found 1 [[98%N]; ex_yang 100]))] /\
+  lookups ex_root ex_path [[100%N]; [99%N]] =
+    [([100%N], Outcome.Ok (File.Found 1 [[98%N]; ex_yang 100])); ([99%N], Outcome.Ok (File.Found 1 [[97%N]; ex_yang 99]))].
+Proof. exact lookups_example. Qed.
+
 (* "m.yang:12:3: x", "m.yang:9:30: y": positioned; line 9 sorts before line 12; the duplicate is dropped *)
 Example C05_positioned_example : positioned p12 /\ positioned p9 /\ errorSort [p12; p9; p12] = [p9; p12].
 Proof. exact positioned_example. Qed.
